@@ -1134,6 +1134,320 @@ Qed.
 
 End Inherit.
 
+(* ---- Workflow.replace_child without IO maps ------------------------------------------------------ *)
+Lemma flat_map_nil {A B} (f : A -> list B) l : (forall x, f x = []) -> flat_map f l = [].
+Proof. intros H. induction l as [|a r IH]; simpl; auto. now rewrite H, IH. Qed.
+
+Lemma rebuild_no_map W st : rebuild W st [] = Some (with_cn st (cn st) (fc st)).
+Proof.
+  unfold rebuild.
+  assert (E : forall inp, exposed W st [] inp = []).
+  { intros inp. unfold exposed. apply flat_map_nil. intros n. apply flat_map_nil. intros ch. reflexivity. }
+  rewrite !E. reflexivity.
+Qed.
+
+Lemma replace_wf_no_map_err W st comp old new st' e ph :
+  replace_wf W st [] comp old new = (st', RErr e ph) -> replace_core W st comp old new = (st', RErr e ph).
+Proof.
+  unfold replace_wf. destruct (replace_core W st comp old new) as [st1 [|e1 ph1]]; auto.
+  rewrite rebuild_no_map. discriminate.
+Qed.
+
+(* ---- flow derivation: restore on error ----------------------------------------------------------- *)
+Definition chans_of_pairs (ps : list (nat * nat)) : list nat := flat_map (fun p => [fst p; snd p]) ps.
+
+(* the store with the channels of the logged pairs emptied *)
+Definition emptied (ps : list (nat * nat)) (s0 : cstore) : cstore :=
+  fun x => if memn x (chans_of_pairs ps) then [] else s0 x.
+
+(* a log of single connections: each side lists exactly the other *)
+Definition single_pairs (s0 : cstore) (ps : list (nat * nat)) : Prop :=
+  NoDup (chans_of_pairs ps) /\ forall c t, In (c, t) ps -> s0 c = [t] /\ s0 t = [c].
+
+Lemma restore_singles W s0 : forall ps u k u' k',
+  single_pairs s0 ps -> (forall x, u x = emptied ps s0 x) ->
+  restore W u k ps = (u', k', Ok) -> same u' s0.
+Proof.
+  induction ps as [|[c t] rest IH]; intros u k u' k' [ND H] Hu E.
+  - simpl in E. inversion E; subst. intros x. rewrite Hu. reflexivity.
+  - simpl in E. destruct (connect1 W u k c t) as [[u1 k1] r1] eqn:C. destruct r1; [|discriminate].
+    destruct (H c t (or_introl eq_refl)) as [Hc Ht].
+    simpl in ND. inversion ND as [|? ? Hc_nin ND1]; subst. inversion ND1 as [|? ? Ht_nin ND2]; subst.
+    assert (Hct : c <> t) by (intros ->; apply Hc_nin; now left).
+    assert (Uc : u c = []).
+    { rewrite Hu. unfold emptied. rewrite (memn_true_of c); [reflexivity|simpl; auto]. }
+    assert (Ut : u t = []).
+    { rewrite Hu. unfold emptied. rewrite (memn_true_of t); [reflexivity|simpl; auto]. }
+    unfold connect1 in C. destruct (tick k) as [k2 boom]. destruct boom; [discriminate|].
+    rewrite Uc in C. simpl in C.
+    destruct (conjb W c t); [|discriminate]. destruct (validb W c t); [|discriminate].
+    inversion C; subst u1 k1. clear C.
+    apply (IH (link_raw u c t) k2 u' k'); auto.
+    + split; auto. intros x y Hin. apply H. now right.
+    + intros x. rewrite link_raw_at by exact Hct. unfold emptied.
+      destruct (Nat.eqb x c) eqn:E1.
+      * apply Nat.eqb_eq in E1. subst x. rewrite Uc.
+        rewrite (memn_false_of c (chans_of_pairs rest)).
+        -- now rewrite Hc.
+        -- intros Hx. apply Hc_nin. now right.
+      * destruct (Nat.eqb x t) eqn:E2.
+        -- apply Nat.eqb_eq in E2. subst x. rewrite Ut.
+           rewrite (memn_false_of t (chans_of_pairs rest)); [now rewrite Ht|exact Ht_nin].
+        -- rewrite Hu. unfold emptied.
+           change (chans_of_pairs ((c, t) :: rest)) with (c :: t :: chans_of_pairs rest).
+           unfold memn. cbn [memb]. rewrite E1, E2. reflexivity.
+Qed.
+
+(* every connection of the listed channels is a single connection on both sides *)
+Definition singles (s0 : cstore) (L : list nat) : Prop :=
+  forall c t, In c L -> In t (s0 c) -> s0 c = [t] /\ s0 t = [c] /\ c <> t.
+
+Lemma disc1_single u c t : c <> t -> u c = [t] -> u t = [c] ->
+  forall x, disc1 u c t x = if Nat.eqb x c then [] else if Nat.eqb x t then [] else u x.
+Proof.
+  intros Hct Uc Ut x.
+  rewrite (disc1_mid u c t [] [] [] []); auto.
+Qed.
+
+Lemma dal_singles s0 : forall L ps u u' qs,
+  singles s0 L -> single_pairs s0 ps -> (forall x, u x = emptied ps s0 x) ->
+  disconnect_all_list u L = (u', qs) ->
+  single_pairs s0 (ps ++ qs) /\ (forall x, u' x = emptied (ps ++ qs) s0 x).
+Proof.
+  induction L as [|c r IH]; intros ps u u' qs HS SP Hu E.
+  - simpl in E. inversion E; subst. rewrite app_nil_r. auto.
+  - simpl in E. destruct (disconnect_all u c) as [u1 p1] eqn:D1.
+    destruct (disconnect_all_list u1 r) as [u2 p2] eqn:D2. inversion E; subst u' qs. clear E.
+    assert (HSr : singles s0 r) by (intros a b Ha Hb; apply HS; auto; now right).
+    unfold disconnect_all in D1.
+    destruct (u c) as [|t rest] eqn:Uc.
+    + simpl in D1. inversion D1; subst u1 p1. simpl. eapply IH; eauto.
+    + (* u c is not empty: c has not been emptied, so u c = s0 c = [t] *)
+      assert (Hc : memn c (chans_of_pairs ps) = false).
+      { destruct (memn c (chans_of_pairs ps)) eqn:M; auto. rewrite Hu in Uc. unfold emptied in Uc.
+        rewrite M in Uc. discriminate. }
+      assert (Sc : s0 c = t :: rest) by (rewrite Hu in Uc; unfold emptied in Uc; now rewrite Hc in Uc).
+      destruct (HS c t (or_introl eq_refl)) as (S1 & S2 & Hct); [rewrite Sc; now left|].
+      rewrite Sc in S1. inversion S1; subst rest.
+      assert (Ht : memn t (chans_of_pairs ps) = false).
+      { destruct (memn t (chans_of_pairs ps)) eqn:M; auto. exfalso.
+        apply memn_true in M. unfold chans_of_pairs in M. apply in_flat_map in M.
+        destruct M as ([a b] & Hin & Hx). destruct SP as [_ SP]. destruct (SP a b Hin) as [Sa Sb].
+        assert (X : In c (chans_of_pairs ps)).
+        { unfold chans_of_pairs. apply in_flat_map. exists (a, b). split; auto.
+          simpl in Hx. destruct Hx as [Hx|[Hx|[]]].
+          - rewrite Hx in Sa. assert (b = c) by congruence. simpl. auto.
+          - rewrite Hx in Sb. assert (a = c) by congruence. simpl. auto. }
+        apply memn_true_of in X. congruence. }
+      assert (Ut : u t = [c]) by (rewrite Hu; unfold emptied; now rewrite Ht).
+      cbn [disconnect] in D1. rewrite Uc in D1. rewrite (memn_true_of t [t]) in D1 by (now left).
+      inversion D1; subst u1 p1. clear D1.
+      assert (SP' : single_pairs s0 (ps ++ [(c, t)])).
+      { destruct SP as [ND SP]. split.
+        - unfold chans_of_pairs. rewrite flat_map_app. simpl. apply NoDup_app_intro; auto.
+          + intros x Hx [Hy|[Hy|[]]]; subst; apply memn_true_of in Hx; unfold chans_of_pairs in *; congruence.
+          + constructor; [intros [Hx|[]]; congruence|constructor; [intros []|constructor]].
+        - intros a b Hin. apply in_app_or in Hin. destruct Hin as [Hin|[Hin|[]]]; auto.
+          inversion Hin; subst. rewrite Sc. auto. }
+      assert (Hu' : forall x, disc1 u c t x = emptied (ps ++ [(c, t)]) s0 x).
+      { intros x. rewrite (disc1_single u c t Hct Uc Ut). unfold emptied, chans_of_pairs.
+        rewrite flat_map_app. simpl.
+        destruct (Nat.eqb x c) eqn:E1.
+        - apply Nat.eqb_eq in E1. subst x.
+          rewrite (memn_true_of c); auto. apply in_or_app. right. now left.
+        - destruct (Nat.eqb x t) eqn:E2.
+          + apply Nat.eqb_eq in E2. subst x.
+            rewrite (memn_true_of t); auto. apply in_or_app. right. right. now left.
+          + rewrite Hu. unfold emptied, chans_of_pairs.
+            destruct (memn x (flat_map (fun p => [fst p; snd p]) ps)) eqn:M.
+            * rewrite (memn_true_of x); auto. apply in_or_app. left. now apply memn_true.
+            * rewrite (memn_false_of x); auto. intros Hx. apply in_app_or in Hx.
+              destruct Hx as [Hx|[Hx|[Hx|[]]]].
+              -- apply memn_true_of in Hx. congruence.
+              -- subst. rewrite Nat.eqb_refl in E1. discriminate.
+              -- subst. rewrite Nat.eqb_refl in E2. discriminate. }
+      destruct (IH (ps ++ [(c, t)]) (disc1 u c t) u2 p2 HSr SP' Hu' D2) as [I1 I2].
+      rewrite <- app_assoc in I1, I2. simpl in I1, I2. auto.
+Qed.
+
+Lemma dal_app s l1 l2 :
+  disconnect_all_list s (l1 ++ l2) =
+  let '(s1, p1) := disconnect_all_list s l1 in let '(s2, p2) := disconnect_all_list s1 l2 in (s2, p1 ++ p2).
+Proof.
+  revert s. induction l1 as [|c r IH]; intros s; simpl.
+  - destruct (disconnect_all_list s l2). reflexivity.
+  - destruct (disconnect_all s c) as [s1 p1]. rewrite IH.
+    destruct (disconnect_all_list s1 r) as [s2 p2]. destruct (disconnect_all_list s2 l2) as [s3 p3].
+    now rewrite app_assoc.
+Qed.
+
+(* the channels the flow derivation breaks: run, accumulate_and_run and ran of every node *)
+Definition flow_chans (W : world) (nodes : list nat) : list nat :=
+  flat_map (fun v => run_chans W v ++ opt_list (find_chan W v PSOut L_RAN)) nodes.
+
+Lemma disc_phase_flat W : forall nodes s, disc_phase W s nodes = disconnect_all_list s (flow_chans W nodes).
+Proof.
+  induction nodes as [|v r IH]; intros s; simpl; [reflexivity|].
+  unfold flow_chans in *. simpl. rewrite !dal_app.
+  destruct (disconnect_all_list s (run_chans W v)) as [s1 p1].
+  destruct (disconnect_all_list s1 (opt_list (find_chan W v PSOut L_RAN))) as [s2 p2].
+  rewrite IH. destruct (disconnect_all_list s2 _) as [s3 p3]. now rewrite app_assoc.
+Qed.
+
+Lemma connect_none_made W : forall bs s k a s' k' r,
+  connect W s k a bs = (s', k', r, 0) -> s' = s.
+Proof.
+  induction bs as [|b rest IH]; intros s k a s' k' r E; simpl in E.
+  - now inversion E.
+  - destruct (connect1 W s k a b) as [[s1 k1] [|e1]] eqn:C.
+    + destruct (connect W s1 k1 a rest) as [[[s2 k2] r2] n]. inversion E.
+    + inversion E; subst. unfold connect1 in C. destruct (tick k) as [k2 boom]. destruct boom; [now inversion C|].
+      destruct (memn b (s a)); [discriminate|]. destruct (conjb W a b); [|now inversion C].
+      destruct (validb W a b); [discriminate|now inversion C].
+Qed.
+
+Lemma wire_all_made_ge W : forall nodes s k orders m s' k' r m',
+  wire_all W s k nodes orders m = (s', k', r, m') -> m <= m'.
+Proof.
+  induction nodes as [|v rest IH]; intros s k orders m s' k' r m' E; simpl in E.
+  - inversion E. lia.
+  - destruct (find_chan W v PSIn L_ACC) as [acc|]; [|eapply IH; eauto].
+    match type of E with context [connect W s k acc ?rs] => destruct (connect W s k acc rs) as [[[s1 k1] r1] n] end.
+    destruct r1.
+    + apply IH in E. lia.
+    + inversion E. lia.
+Qed.
+
+Lemma wire_all_none_made W : forall nodes s k orders m s' k' e m',
+  wire_all W s k nodes orders m = (s', k', Err e, m') -> m' = m -> s' = s.
+Proof.
+  induction nodes as [|v r IH]; intros s k orders m s' k' e m' E Hm; simpl in E.
+  - discriminate.
+  - destruct (find_chan W v PSIn L_ACC) as [acc|]; [|eapply IH; eauto].
+    match type of E with context [connect W s k acc ?rs] => destruct (connect W s k acc rs) as [[[s1 k1] r1] n] eqn:C end.
+    destruct r1.
+    + pose proof (wire_all_made_ge W _ _ _ _ _ _ _ _ _ E) as Hge.
+      assert (n = 0) by lia. subst n. apply connect_none_made in C. subst s1.
+      eapply IH; eauto. lia.
+    + inversion E; subst. assert (n = 0) by lia. subst n. now apply connect_none_made in C.
+Qed.
+
+(* A4: a refused flow derivation (cyclic data, foreign upstream, or a failure of the very first new
+   connection) restores every broken run/ran connection -- in a graph whose run/ran wiring is made of single
+   connections *)
+Lemma wire_atomic W st orders st' e ph :
+  singles (cn st) (flow_chans W (kids st)) ->
+  wire W st orders = (st', WErr e ph) -> ph = WGraph \/ ph = WWire 0 -> same_graph st st'.
+Proof.
+  intros HSg. unfold wire. destruct (kids st) as [|v r] eqn:K; [discriminate|].
+  rewrite <- K in *. destruct (disc_phase W (cn st) (kids st)) as [s1 pairs] eqn:D.
+  rewrite disc_phase_flat in D.
+  assert (SP0 : single_pairs (cn st) []) by (split; [constructor|intros c t []]).
+  destruct (dal_singles (cn st) _ [] (cn st) s1 pairs HSg SP0 (fun x => eq_refl) D) as [SP Hs1].
+  simpl in SP, Hs1.
+  assert (Fin : forall s k e0 ph0, (forall x, s x = emptied pairs (cn st) x) ->
+            (match restore W s k pairs with
+             | (s2, k2, Ok) => (with_cn st s2 k2, WErr e0 ph0)
+             | (s2, k2, Err e2) => (with_cn st s2 k2, WErr e2 WRestore)
+             end) = (st', WErr e ph) -> ph <> WRestore -> same_graph st st').
+  { intros s k e0 ph0 Hs E Hph. destruct (restore W s k pairs) as [[s2 k2] [|e2]] eqn:R.
+    - inversion E; subst. unfold same_graph. simpl. split; [|repeat split; apply same_refl].
+      apply same_sym. eapply restore_singles; eauto.
+    - inversion E; subst. congruence. }
+  destruct (digraph_check W st s1 (kids st)) as [e1|].
+  - intros E Hph. eapply Fin; eauto. destruct Hph as [->| ->]; discriminate.
+  - destruct (acyclic W (S (List.length (kids st))) s1 (kids st) []).
+    + destruct (wire_all W s1 (fc st) (kids st) orders 0) as [[[s2 k2] [|e2]] made] eqn:WA.
+      * discriminate.
+      * intros E Hph.
+        assert (Hph' : ph <> WRestore) by (destruct Hph as [->| ->]; discriminate).
+        assert (made = 0 -> s2 = s1) by (intros ->; eapply wire_all_none_made; eauto).
+        destruct (restore W s2 k2 pairs) as [[s3 k3] [|e3]] eqn:R.
+        -- inversion E; subst. destruct Hph as [Hph|Hph]; [discriminate|]. inversion Hph; subst.
+           rewrite (H eq_refl) in R.
+           unfold same_graph. simpl. split; [|repeat split; apply same_refl].
+           apply same_sym. eapply restore_singles; eauto.
+        -- inversion E; subst. congruence.
+    + intros E Hph. eapply Fin; eauto. destruct Hph as [->| ->]; discriminate.
+Qed.
+
+(* ---- what a successful copy transfers, and in which order ------------------------------------------ *)
+Section Transfers.
+Variable W : world.
+Variable st : state.
+Variables dst src : nat.
+Hypothesis Hne : dst <> src.
+Hypothesis HS : Sym (cn st).
+Hypothesis HN : NoDupS (cn st).
+Hypothesis HU : uniq_labels W src.
+Hypothesis HT : third_party W dst src (cn st).
+
+(* every connection list after a successful copy_io: the copied partners, NEWEST FIRST IN REVERSED ORDER,
+   in front of what the channel had before; and every connected channel of [src] had a counterpart *)
+Lemma copy_io_transfers vfh st' :
+  copy_io W st dst src true vfh = (st', COk) ->
+  linked (cn st) (plan W dst src (cn st)) (cn st') /\
+  (forall ch, In ch (all_chans W src) -> cn st ch <> [] -> my_chan W dst ch <> None).
+Proof.
+  unfold copy_io. destruct (copy_connections_io W true dst src (cn st) (fc st)) as [[[s1 k1] new] raised] eqn:C.
+  pose proof (copy_connections_io_spec W dst src (cn st) Hne HS HN HU HT (fc st) s1 k1 new raised C) as R.
+  destruct raised; [discriminate|]. destruct R as (G & L & O & -> & Hmy).
+  simpl. destruct (copy_values W vfh dst src (rc st) (vl st) (fv st)) as [[[v2 k2] [|e2]] second]; [|discriminate].
+  intros E. inversion E; subst. simpl. auto.
+Qed.
+
+Lemma partners_map_pair c ts x : ~ In x ts -> partners (map (fun t => (c, t)) ts) x = if Nat.eqb x c then ts else [].
+Proof.
+  intros Hx. induction ts as [|t r IH].
+  - simpl. now destruct (Nat.eqb x c).
+  - cbn [map]. rewrite partners_cons. rewrite IH by (intros H; apply Hx; now right).
+    destruct (Nat.eqb x c) eqn:E1; simpl; auto.
+    destruct (Nat.eqb x t) eqn:E2; auto. apply Nat.eqb_eq in E2. subst. exfalso. apply Hx. now left.
+Qed.
+
+(* the partners the plan gives to a channel [x] of the receiving node: the list of its namesake *)
+Lemma partners_plan_dst ch x :
+  In ch (all_chans W src) -> my_chan W dst ch = Some x ->
+  partners (plan W dst src (cn st)) x = cn st ch.
+Proof.
+  intros Hch M. unfold plan.
+  assert (Hx : owner_of W x = dst) by (apply my_chan_spec in M; tauto).
+  assert (Gen : forall L, NoDup L -> (forall c, In c L -> In c (all_chans W src)) ->
+            partners (flat_map (plan1 W dst (cn st)) L) x = if memn ch L then cn st ch else []).
+  { induction L as [|c r IH]; intros ND HL; [reflexivity|].
+    apply NoDup_cons_iff in ND. destruct ND as [Hnin ND']. simpl. rewrite partners_app, IH; auto.
+    2:{ intros c' Hc'. apply HL. now right. }
+    assert (Hc : In c (all_chans W src)) by (apply HL; now left).
+    unfold plan1 at 1. destruct (my_chan W dst c) as [y|] eqn:My.
+    - rewrite partners_map_pair.
+      2:{ intros Hin. destruct (HT c Hc x Hin) as (_ & T2 & _). congruence. }
+      destruct (Nat.eqb ch c) eqn:E1.
+      + apply Nat.eqb_eq in E1. subst c. rewrite M in My. inversion My; subst y. rewrite Nat.eqb_refl.
+        rewrite (memn_false_of ch r) by exact Hnin.
+        rewrite (memn_true_of ch (ch :: r)) by (now left). now rewrite app_nil_r.
+      + destruct (Nat.eqb x y) eqn:E2.
+        * apply Nat.eqb_eq in E2. subst y. apply Nat.eqb_neq in E1. exfalso. apply E1.
+          eapply my_chan_inj; eauto.
+        * unfold memn. cbn [memb]. rewrite E1. reflexivity.
+    - destruct (Nat.eqb ch c) eqn:E1.
+      + apply Nat.eqb_eq in E1. subst c. congruence.
+      + unfold memn. cbn [memb]. rewrite E1. reflexivity. }
+  rewrite Gen; auto using all_chans_nodup.
+  now rewrite (memn_true_of ch).
+Qed.
+
+(* in particular a channel of an unconnected receiver ends up with the REVERSED list of its namesake *)
+Lemma copy_io_reverses vfh st' ch x :
+  copy_io W st dst src true vfh = (st', COk) ->
+  In ch (all_chans W src) -> my_chan W dst ch = Some x -> cn st x = [] ->
+  cn st' x = rev (cn st ch).
+Proof.
+  intros E Hch M Hx. destruct (copy_io_transfers vfh st' E) as [L _].
+  rewrite L, (partners_plan_dst ch x Hch M), Hx. apply app_nil_r.
+Qed.
+
+End Transfers.
+
 (* ==== witnesses: where the code as written breaks the property ==================================== *)
 (* the channels of a function node: inputs, outputs, run, accumulate_and_run, ran, failed *)
 Definition fnode (n : nat) (ins outs : list (nat * option htag)) : world :=
